@@ -83,6 +83,10 @@ pub struct Kid {
     pub wake_in_drop: bool,
     /// wakes its own waker in the very poll in which it returns Ready
     pub wake_on_ready: bool,
+    /// scripted panics (C07 profile only): panic at the k-th poll / in the destructor when
+    /// dropped inside a collection poll
+    pub panic_in_poll: u32,
+    pub panic_in_drop: bool,
     pub drops: u8,
     pub finished_call: Option<u64>,
     pub woken_call: Option<u64>,
@@ -99,6 +103,8 @@ pub struct Kid {
     /// grandchildren of a nested child (it is a join_all over them)
     pub nested: Vec<u32>,
     pub parent: Option<u32>,
+    /// handed to the crate as a future type without drop glue: its drop cannot be observed
+    pub plain: bool,
 }
 
 impl Kid {
@@ -270,6 +276,13 @@ pub struct World {
     pub desc: RefCell<String>,
     /// tag of the property this worker is run for ("" = stop at the first violation of any)
     pub armed: Cell<&'static str>,
+    /// a scripted child panic is unwinding right now (the driver expects it)
+    pub plain_join: Cell<bool>,
+    pub scripted_panic: Cell<bool>,
+    /// a scripted panic has happened in this history: from then on only C07 is judged (the
+    /// question is whether safe code can be handed a value nobody produced), the other
+    /// properties make no promise about collections whose children panic
+    pub panic_mode: Cell<bool>,
 }
 
 thread_local! {
@@ -334,6 +347,9 @@ impl World {
             max_backlog: Cell::new(0),
             desc: RefCell::new(String::new()),
             armed: Cell::new(""),
+            plain_join: Cell::new(false),
+            scripted_panic: Cell::new(false),
+            panic_mode: Cell::new(false),
         })
     }
 
@@ -353,6 +369,9 @@ impl World {
     }
 
     pub fn violation(&self, prop: &'static str, rule: &'static str, detail: String) {
+        if self.panic_mode.get() && prop != "C07" {
+            return;
+        }
         let mut v = self.viol.borrow_mut();
         let armed_now = self.armed.get();
         let mine_now = v.iter().filter(|x| x.prop == armed_now).count();
@@ -440,6 +459,8 @@ impl World {
             wake_other: None,
             wake_in_drop: false,
             wake_on_ready: false,
+            panic_in_poll: 0,
+            panic_in_drop: false,
             drops: 0,
             finished_call: None,
             woken_call: None,
@@ -453,6 +474,7 @@ impl World {
             victim: false,
             nested: Vec::new(),
             parent: None,
+            plain: false,
         });
         (k.len() - 1) as u32
     }
@@ -634,6 +656,19 @@ impl World {
             self.event(ev::KID_POLL, id as u64, 0);
             return None;
         }
+        {
+            let (pp, polls) = {
+                let ks = self.kids.borrow();
+                (ks[id as usize].panic_in_poll, ks[id as usize].polls)
+            };
+            if pp != 0 && polls == pp {
+                self.kids.borrow_mut()[id as usize].panic_in_poll = 0;
+                self.event(ev::KID_POLL, id as u64, 9);
+                self.scripted_panic.set(true);
+                self.panic_mode.set(true);
+                panic!("scripted panic in the poll of kid {id}");
+            }
+        }
         let ready = self.kids.borrow()[id as usize].ready;
         if ready {
             if self.kids.borrow()[id as usize].wake_on_ready {
@@ -759,6 +794,13 @@ impl World {
         if wake {
             // hostile but legal: a future that wakes its own waker from its destructor
             self.wake_kid(id, 0, 0);
+        }
+        let pd = self.kids.borrow()[id as usize].panic_in_drop;
+        if pd && self.ctx.get() == Ctx::InPoll && !std::thread::panicking() {
+            self.kids.borrow_mut()[id as usize].panic_in_drop = false;
+            self.scripted_panic.set(true);
+            self.panic_mode.set(true);
+            panic!("scripted panic in the destructor of kid {id}");
         }
     }
 
@@ -1078,11 +1120,13 @@ impl Drop for Tok {
         if self.magic == MAGIC {
             let c = **self.canary;
             unsafe { ManuallyDrop::drop(&mut self.canary) };
+            // a token that is handed out again after it was dropped must not look valid
+            self.magic = 0xDEAD_70C3;
             if let Some(w) = try_w() {
                 if c != self.id ^ MAGIC {
                     w.violation("C07", "corrupt_token", format!("token {} canary {c:#x}", self.id));
                 }
-                w.obj_dropped(self.id, self.magic);
+                w.obj_dropped(self.id, MAGIC);
             }
         } else if let Some(w) = try_w() {
             w.obj_dropped(self.id, self.magic);
